@@ -305,10 +305,15 @@ def search(trees, points, pid, payload, assignments=False, family=None):
     else:
         # the model is unavailable, so failures cannot be attributed through its trace: a failing tree that contains the
         # operand shape of a listed finding is not reported as a new failing input
-        for f in fails:
-            if "unlisted_family_member" in f or not could_be_known(f["p"], pid):
-                new.append({"p": repr(f["p"]), "optimized": repr(f["q"]), "x": repr(f["x"]), "original_answer": repr(f["orig"]),
-                            "optimized_answer": repr(f["opt"]), "note": "model unavailable: attributed by shape only"})
+        # ... unless the REVIEWED code (tools/props/baseline, the commit the known findings were established on) optimizes this very
+        # input correctly: then it cannot be one of the listed findings, whatever its shape
+        base = baseline_verdicts([(f["p"], f["x"], assignments) for f in fails])
+        for f, b in zip(fails, base):
+            if "unlisted_family_member" in f or b is False or not could_be_known(f["p"], pid):
+                new.append({"p": repr(f["p"]), "p_structure": skey(f["p"]), "optimized": repr(f["q"]), "x": repr(f["x"]), "original_answer": repr(f["orig"]),
+                            "optimized_answer": repr(f["opt"]),
+                            "note": ("model unavailable; the reviewed code (tools/props/baseline) optimizes this input correctly, so it is not a listed finding"
+                                     if b is False else "model unavailable: attributed by shape only")})
     for f, ids in listed_hits:
         known_hits += [{"id": s, "p": repr(f["p"]), "listed": True} for s in ids if s in known_ids]
     for k in vlib.load_known().get("findings", []):
@@ -349,6 +354,35 @@ def witness_fails(k) -> bool:
 def replay(payload):
     inp = payload["replay"].get("input", {})
     return {"fails": True, "input": inp, "note": "re-evaluate: PYTHONPATH=/repo /venv/bin/python -c 'from predicate import *; p = <p>; print(p(x), optimize(p)(x))'"}
+
+
+def baseline_verdicts(cases):
+    """for (p, x, assignments): does the REVIEWED library code (snapshot in tools/props/baseline) also change p's answer at x when it
+    optimizes?  True / False / None (cannot tell: not picklable, snapshot missing, error).  Only used when the model is unavailable."""
+    import pickle
+    import subprocess
+    import sys
+    here = os.path.dirname(os.path.abspath(__file__))
+    out = [None] * len(cases)
+    idx, blob = [], []
+    for i, c in enumerate(cases):
+        try:
+            pickle.dumps(c)
+            idx.append(i)
+            blob.append(c)
+        except Exception:  # noqa: BLE001
+            pass
+    if not blob or not os.path.isdir(os.path.join(here, "baseline", "predicate")):
+        return out
+    try:
+        r = subprocess.run([sys.executable, os.path.join(here, "baseline_run.py")], input=pickle.dumps(blob), stdout=subprocess.PIPE, stderr=subprocess.DEVNULL,
+                           env=dict(os.environ, PYTHONPATH=os.path.join(here, "baseline"), PYTHONHASHSEED="0"), timeout=600)
+        got = json.loads(r.stdout.decode().strip().splitlines()[-1])
+        for i, g_ in zip(idx, got):
+            out[i] = g_
+    except Exception:  # noqa: BLE001
+        pass
+    return out
 
 
 def could_be_known(p, pid) -> bool:
